@@ -161,8 +161,11 @@ def verify_authentication_response(
 
     signature_base = authenticator_data_bytes + client_data_hash_bytes
 
+    if isinstance(credential_public_key, memoryview):
+        credential_public_key = byteslike_to_bytes(credential_public_key)
+
     try:
-        decoded_public_key = decode_credential_public_key(byteslike_to_bytes(credential_public_key))
+        decoded_public_key = decode_credential_public_key(credential_public_key)
         crypto_public_key = decoded_public_key_to_cryptography(decoded_public_key)
 
         verify_signature(
